@@ -14,6 +14,12 @@ from ..pm import src
 from ..q import walk_no_nested
 
 
+# loops whose array length is an exact multiple of the batch width by construction (function -> why)
+REVIEWED_EXACT = {
+    "verify_rescaling": "x_out is the test input repeated a whole number of times by the duplicating inversions, so x_out.size is an exact multiple of x.size",
+}
+
+
 def _strip(e):
     return ast.unparse(e).replace(" ", "")
 
@@ -92,6 +98,9 @@ def scan_function(fnode):
         if isinstance(k, ast.Name) and len(assigns.get(k.id, [])) == 1:
             defs = [assigns[k.id][0]]
         kind = _count_kind(defs[0], bt)
+        if kind == "floor" and getattr(fnode, "name", None) in REVIEWED_EXACT:
+            out.append((loop, True, f"batches of {bt}: `{src(defs[0])[:50]}` is exact here - {REVIEWED_EXACT[fnode.name]}"))
+            continue
         if kind is None:
             out.append((loop, True, f"batches of {bt}: number of batches `{src(defs[0])[:50]}` is not derived from a division by the batch size (not decided)"))
             continue
